@@ -30,6 +30,7 @@ Args(op) == CASE op \in {"set", "rpush", "jset"}          -> Vals \X {0}
               [] op \in {"hset", "zadd"}                   -> Subs \X Vals
               [] op \in {"hdel", "sadd", "srem", "zrem"}   -> Subs \X {0}
               [] op = "zrembyscore"                        -> {<<1, 1>>, <<1, 2>>, <<2, 2>>}
+              [] op \in {"zrembylex"}                       -> {<<0, 0>>, <<11, 11>>, <<10, 21>>, <<11, 0>>}
               [] OTHER                                     -> {<<0, 0>>}
 
 Next == \/ \E u \in Tups : \E op \in OpsOf(TyOf(u)) : \E ab \in Args(op) :
